@@ -126,7 +126,7 @@ fn proto_corpus(root: &Path, cases: &Path, pbuild: &Path, c: &Corpus, members: &
         write_if_changed(
             &kdir.join("src/main.rs"),
             &format!(
-                "#![allow(warnings)]\n#[global_allocator]\nstatic ALLOC: monitors::alloc::Counting = monitors::alloc::Counting;\n\ninclude!(\"{}\");\ninclude!(\"{}\");\n\nfn main() {{\n    gencase::pbchecks::pmain(registry(), {}, {}, \"{}\", \"{}\");\n}}\n",
+                "#![allow(warnings)]\n#[cfg(not(miri))]\n#[global_allocator]\nstatic ALLOC: monitors::alloc::Counting = monitors::alloc::Counting;\n\ninclude!(\"{}\");\ninclude!(\"{}\");\n\nfn main() {{\n    gencase::pbchecks::pmain(registry(), {}, {}, \"{}\", \"{}\");\n}}\n",
                 gen_dir.join("pgen.rs").display(),
                 cdir.join("registry.rs").display(),
                 c.seed,
@@ -263,7 +263,7 @@ fn main() {
             write_if_changed(
                 &kdir.join("src/main.rs"),
                 &format!(
-                    "#![allow(warnings)]\n#[global_allocator]\nstatic ALLOC: monitors::alloc::Counting = monitors::alloc::Counting;\n\ninclude!(\"{}\");\ninclude!(\"{}\");\n\nfn main() {{\n    gencase::main(registry(), {}, \"{}\", \"{}\", \"{}\");\n}}\n",
+                    "#![allow(warnings)]\n#[cfg(not(miri))]\n#[global_allocator]\nstatic ALLOC: monitors::alloc::Counting = monitors::alloc::Counting;\n\ninclude!(\"{}\");\ninclude!(\"{}\");\n\nfn main() {{\n    gencase::main(registry(), {}, \"{}\", \"{}\", \"{}\");\n}}\n",
                     tmp_sub.display(),
                     cdir.join("registry.rs").display(),
                     c.seed,
